@@ -27,6 +27,8 @@ def run(R):
     pairs = []
     for i in range(6 if thorough else 3):
         pairs.append((rb("seed%d" % i), rb("msg%d" % i, (i * 53) % 130)))
+    # a long message: the challenge hash receives several whole 128-byte blocks in one update (bit flips far into it are part of the adversarial set below)
+    pairs.append((rb("seedlong"), rb("msglong", 450)))
     # keys selected by structure: public key with a zero last byte / zero first byte
     want = {"last0": lambda pk: pk[31] == 0, "first0": lambda pk: pk[0] == 0}
     t = 0
@@ -53,6 +55,10 @@ def run(R):
         honest.append((r["ev"][1]["msg"], pk, r["ev"][1]["out"]["v"]))
     for i, (m, pk, sig) in enumerate(honest):
         add(m, pk, sig, ("honest", i))
+    # the long message: honest, and with single bits flipped in each of its 128-byte blocks (incl. those a bulk compression path would handle)
+    for (lm, lpk, lsig) in [h for h in honest if len(h[0]) >= 400][:1]:
+        for b in [8 * o + (o % 8) for o in (0, 63, 64, 191, 192, 200, 319, 320, 447, 449)]:
+            add(flip(lm, b), lpk, lsig, ("longmsgbit", b))
     m, pk, sig = honest[0]
     S = int.from_bytes(bytes(sig[32:]), "little")
     # single-bit mutations
